@@ -4817,12 +4817,16 @@ class ParseCtx:
                 except ValueError as e:
                     raise IllegalParseTree(e.args[0], actual_content)
                 ProgramData.imbue(match, DTAG.NAME, f"binary match {expr.children[0].value}")
+            if not match.match_contents:
+                raise IllegalParseTree("An empty literal cannot be matched", actual_content)
             ProgramData.imbue(match, DTAG.SOURCE_LINE, actual_content.line)
             ProgramData.imbue(match, DTAG.SOURCE_COLUMN, actual_content.column)
             return match
         elif expr.data == "string_case_const":
             actual_content = expr.children[0]
             match = CaseDirectMatch(self._convert_string(actual_content.value))
+            if not match.match_contents:
+                raise IllegalParseTree("An empty literal cannot be matched", actual_content)
             ProgramData.imbue(match, DTAG.SOURCE_LINE, actual_content.line)
             ProgramData.imbue(match, DTAG.SOURCE_COLUMN, actual_content.column)
             return match
